@@ -11,6 +11,7 @@ import (
 	"testing"
 	"time"
 
+	"github.com/EliCDavis/polyform/math/geometry"
 	"github.com/EliCDavis/polyform/math/sample"
 	"github.com/EliCDavis/polyform/modeling"
 	"github.com/EliCDavis/polyform/modeling/marching"
@@ -260,6 +261,10 @@ type MarchCase struct {
 	// Extra: further Float1 functions of the field besides the one that is marched (a field is a set
 	// of named functions; AddField samples all of them, so must the parallel variants)
 	Extra int `json:",omitempty"`
+	// Clip = axis+1: instead of the union, a ball whose domain ends exactly on the last sample layer
+	// of a storage block on that axis (layer 99) and cuts the ball there: the neighbouring block
+	// receives no sample but must exist for the cubes between layer 99 and it
+	Clip int `json:",omitempty"`
 }
 
 func genMarch(t *rapid.T) MarchCase {
@@ -278,6 +283,10 @@ func genMarch(t *rapid.T) MarchCase {
 		c.End[i] = rapid.Float64Range(-6, 6).Draw(t, "end")
 	}
 	c.Extra = rapid.SampledFrom([]int{0, 0, 1, 2}).Draw(t, "extraAttributes")
+	if rapid.IntRange(0, 3).Draw(t, "clipped") == 0 {
+		c.Clip = rapid.IntRange(1, 3).Draw(t, "clipAxis")
+		c.CPU = rapid.SampledFrom([]float64{1, 2, 0.5}).Draw(t, "clipCpu") // exact cell sizes
+	}
 	return c
 }
 
@@ -340,6 +349,22 @@ func runMarch(c MarchCase, o *vh.Obs) *vh.Failure {
 		marching.Box(ctr.Add(vector3.New(4*cell, 1*cell, 0)), vector3.New(c.Box[0], c.Box[1], c.Box[2]).Scale(cell), 1),
 		marching.Line(ctr, end, 2.5*cell, 1),
 	)
+	if c.Clip >= 1 && c.Clip <= 3 && (c.CPU == 1 || c.CPU == 2 || c.CPU == 0.5) {
+		a := c.Clip - 1
+		end := float64(100*(c.Anchor[a]+1)-1) * cell // ceil(end*cpu) = 100k-1: the last sampled layer is layer 99
+		cc := [3]float64{ctr.X(), ctr.Y(), ctr.Z()}
+		cc[a] = end - 1.5*cell
+		centre := vector3.New(cc[0], cc[1], cc[2])
+		lo := centre.Sub(vector3.Fill((c.R + 2) * cell))
+		hi := centre.Add(vector3.Fill((c.R + 2) * cell))
+		h := [3]float64{hi.X(), hi.Y(), hi.Z()}
+		h[a] = end
+		r := c.R * cell
+		field = marching.Field{Domain: geometry.NewAABBFromPoints(lo, vector3.New(h[0], h[1], h[2])),
+			Float1Functions: map[string]sample.Vec3ToFloat{modeling.PositionAttribute: func(p vector3.Float64) float64 { return p.Distance(centre) - r }}}
+		o.Class("marching/ball-clipped-by-its-domain-on-layer-99")
+		o.NonTrivial()
+	}
 	if c.Extra > 0 { // cheap functions: their jobs finish before the distance field's
 		fns := map[string]sample.Vec3ToFloat{}
 		for k, f := range field.Float1Functions {
